@@ -19,6 +19,7 @@ package main
 import (
 	"fmt"
 	"math"
+	"os"
 	"regexp"
 	"strconv"
 	"strings"
@@ -136,6 +137,21 @@ func newSample(vals []float64, alpha float64) *benchmath.Sample {
 	return benchmath.NewSample(append([]float64(nil), vals...), &benchmath.Thresholds{CompareAlpha: alpha})
 }
 
+// extreme (VERIF_C13_EXTREME=1) lifts the magnitude limits of the generators: values whose squares
+// or differences overflow/underflow float64. Off by default: see notes/C13.md (findings X1, X2).
+var extreme = os.Getenv("VERIF_C13_EXTREME") == "1"
+
+// moderate reports whether every non-zero magnitude lies in [2^-250, 2^250] (variances and their
+// squares, as formed by moremath's MeanCI / Welch t-test, then stay inside the float64 range).
+func moderate(xs []float64) bool {
+	for _, x := range xs {
+		if x != 0 && (math.Abs(x) > 0x1p250 || math.Abs(x) < 0x1p-250) {
+			return false
+		}
+	}
+	return true
+}
+
 // ---------------------------------------------------------------- external data
 
 type qci struct{ lo, hi int }
@@ -160,8 +176,12 @@ func needTable(conf float64) string {
 // ---------------------------------------------------------------- cases
 
 func sumCase(a string, vals []float64, conf float64, tag string) {
+	if a == "normal" && !extreme && !moderate(vals) {
+		return
+	}
 	defer func() {
 		if e := recover(); e != nil {
+			hx.Printf("case %d kind=crash what=sum a=%s vals=%s conf=%s tag=%s\n", id, a, list(vals), raw(conf), tag)
 			hx.Printf("crash %d %v\n", id, e)
 			id++
 		}
@@ -247,8 +267,12 @@ func pOrErrU(x1, x2 []float64, alt stats.LocationHypothesis) string {
 }
 
 func cmpCase(r *hx.Rand, a string, v1, v2 []float64, alpha float64, alphaEqP bool, tag string) {
+	if a == "normal" && !extreme && !(moderate(v1) && moderate(v2)) {
+		return
+	}
 	defer func() {
 		if e := recover(); e != nil {
+			hx.Printf("case %d kind=crash what=cmp a=%s v1=%s v2=%s alpha=%s tag=%s\n", id, a, list(v1), list(v2), raw(alpha), tag)
 			hx.Printf("crash %d %v\n", id, e)
 			id++
 		}
@@ -358,8 +382,16 @@ func pickN(r *hx.Rand) int {
 // sample returns n finite values and a tag naming the shape.
 func sample(r *hx.Rand, n int) ([]float64, string) {
 	xs := make([]float64, n)
-	kind := r.Intn(11)
+	kind := r.Intn(12)
 	switch kind {
+	case 11: // large and small magnitudes every assumption can take (exponents within ±240)
+		for i := range xs {
+			xs[i] = math.Ldexp(1+r.Float(), r.Intn(481)-240)
+			if r.Chance(1, 4) {
+				xs[i] = -xs[i]
+			}
+		}
+		return xs, "big"
 	case 0: // small integers: many ties
 		m := 2 + r.Intn(4)
 		for i := range xs {
@@ -390,7 +422,11 @@ func sample(r *hx.Rand, n int) ([]float64, string) {
 		return xs, "const"
 	case 5: // huge magnitudes (exponent up to 1000: differences and sums stay finite)
 		for i := range xs {
-			xs[i] = math.Ldexp(1+r.Float(), 900+r.Intn(100)) * float64(1-2*r.Intn(2))
+			top := 100
+			if extreme {
+				top = 124
+			}
+			xs[i] = math.Ldexp(1+r.Float(), 900+r.Intn(top)) * float64(1-2*r.Intn(2))
 		}
 		return xs, "huge"
 	case 6: // tiny magnitudes incl. subnormals
